@@ -2,7 +2,7 @@
 import itertools
 import numpy as np
 from harness import coqio as Q
-from harness.impl import coded_cube, decode, exc_name
+from harness.impl import seq_with_ca, coded_cube, decode, exc_name
 
 CORR = "C12_corr"
 MODEL_FILES = ["Model/M_IndexAsCube.v", "Base/PyIndex.v"]
@@ -85,7 +85,7 @@ def _build(case):
         shape = [OTHER] * nd
         shape[ca] = l
         cubes.append(coded_cube(tuple(shape), cid=k))
-    return NDCubeSequence(cubes, common_axis=ca), cubes
+    return seq_with_ca(cubes, ca, case["key"]), cubes
 
 
 def run(case):
